@@ -1,5 +1,6 @@
 import HdVerif.Proofs.VR
 import HdVerif.Proofs.Aliasing
+import HdVerif.Proofs.C20Tie
 import HdVerif.Model.VRGuards
 import HdVerif.Generated.T20uid
 import HdVerif.Generated.T20sites
@@ -469,5 +470,37 @@ example : neverWritesInputs ⟨"append to the caller's list through self", 1, 1,
     [.assign 1 .fresh, .write (.var 1), .link (.var 1) 5 (.var 0), .write (.view 5 (.var 1))]⟩ = false := by decide
 example : neverWritesInputs ⟨"append to another attribute", 1, 1, false,
     [.assign 1 .fresh, .write (.var 1), .link (.var 1) 5 (.var 0), .write (.view 6 (.var 1))]⟩ = true := by decide
+
+/-! ## bridges: hand-written definitions use exactly the expressions of the current source (proved in `Proofs/C20Tie.lean`) -/
+
+/-- **tie: `UID.from_uuid`.**  The hand-written `VR.fromUuid` renders exactly the f-string that stands in `uid.py` (regenerated part
+by part as `Gen.uuidRender`): a part added, removed or reordered in the source breaks this bridge. -/
+theorem tie_fromUuid_is_source_expression (n : Nat) :
+    fromUuid uuidRoot n = if n < 2 ^ 128 then .ok (uuidRender n) else .error .value :=
+  C20Tie.fromUuid_is_source_expression n
+
+/-- **tie: table coverage.**  The hand-written concatenations `allEntries` / `allCtors` (per-file tables generated from hand-written
+file lists) contain every converter and every constructor that a scan of *all* modules of the package finds
+(`Gen.pkgConverters`, `Gen.pkgConstructors`), up to the three documented exclusions. -/
+theorem tie_tables_cover_package :
+    (pkgConverters.all fun n => tabled allEntries n) = true ∧
+    (pkgConstructors.all fun n => tabled allCtors n || excludedConstructors.contains n) = true :=
+  ⟨C20Tie.converter_tables_cover_package, C20Tie.constructor_tables_cover_package⟩
+
+/-- **tie: nested converter calls.**  The rule by which the extractor models each converter call inside the package (`copy=False`
+⇒ converted in place and the argument returned; no argument / `copy=True` ⇒ a new object; `ContentSequence` / `MeasurementReport`
+⇒ a new container) is what the callee's own regenerated program and signature do: the rules agree call by call, every `copy`
+parameter defaults to `True`, and the hand-written `rebuildsContainer` names exactly the converters that return a new object. -/
+theorem tie_converter_call_rules :
+    (converterCalls.all C20Tie.ruleAgrees) = true ∧ (converterCopyDefaults.all fun x => x.2) = true ∧
+    (allEntries.all fun e => !e.hasCopy || (rebuildsContainer e == !nocopyReturnsSame e)) = true :=
+  ⟨C20Tie.converter_call_rules_agree, C20Tie.converter_copy_defaults_true, C20Tie.rebuilders_are_exactly_the_non_returning⟩
+
+example : pkgConverters.length ≥ 60 ∧ pkgConstructors.length ≥ 150 ∧ converterCalls.length ≥ 40 ∧ converterCopyDefaults.length ≥ 40 := by
+  decide +kernel
+example : uuidRender 7 = "2.25.7".toList := by decide
+/-- the call-rule check can fail: a converter that always copies does not agree with the in-place rule -/
+example : (let e : Entry := ⟨"always copies", 2, 1, true, [.assign 2 .fresh, .writeDeep (.var 2), .ret (.var 2)]⟩
+           e.hasCopy && !rebuildsContainer e && nocopyReturnsSame e && copyLeavesOriginal e) = false := by decide
 
 end HdVerif.C20
